@@ -43,6 +43,9 @@ LIFE = {"name": "life", "quick": 100, "thorough": 600}
 # histories of real programs (trace points) accepted by the Lifecycle LTS
 LTRACE = {"name": "ltrace", "quick": 60, "thorough": 4000}
 CMDFNS = {"name": "cmdfns", "quick": 2000, "thorough": 50000}
+# histories of real sequences (command starts, the loop's filter calls and episode ends) accepted by the
+# product of the Sequence LTS with the loop's books (Tea/Runtime/SeqTrace.lean, C03_trace_checker_sound)
+STRACE = {"name": "strace", "quick": 300, "thorough": 6000}
 
 INPUT_RULE = ("detect: all buffers of <=1 byte and 13x256 (thorough: all) of 2 bytes, all words <=3 (thorough 4) over an 18-byte branch alphabet, every documented key alone/alt/with a tail, all 256 SGR codes x {M,m}, all X10 codes, huge numeric parameters, then seeded structured/mutated/malformed buffers, each with both canHaveMoreData flags; "
               "reader: every documented key between two random events, every event kind at every alignment against the 256-byte buffer, pastes of 0..513 (thorough 4096) bytes cut after the start marker, seeded event streams under whole/full-256/random/byte-wise chunkings. distinct = distinct op lines; non-trivial = not the empty buffer")
@@ -51,7 +54,7 @@ RENDER_RULE = ("render/vt: seeded histories of 1..40 renderer operations (views 
 _CFG = {
     "C01": {"scenarios": ["fold", "term"], "streams": [PTRACE], "trusted": RUNTIME_TRUST},
     "C02": {"scenarios": ["cmds"], "streams": [PTRACE, CMDFNS], "trusted": RUNTIME_TRUST},
-    "C03": {"scenarios": ["seq"], "streams": [CMDFNS], "trusted": RUNTIME_TRUST},
+    "C03": {"scenarios": ["seq"], "streams": [CMDFNS, STRACE], "trusted": RUNTIME_TRUST},
     "C04": {"scenarios": ["term", "pty", "sigexec"], "streams": [LIFE, LTRACE, READER], "trusted": RUNTIME_TRUST},
     "C05": {"scenarios": ["modes", "exec", "pty"], "streams": [GLUE], "trusted": RENDER_TRUST},
     "C06": {"streams": [VT, RENDER_INFO], "scenarios": ["wide"], "rule": RENDER_RULE, "trusted": RENDER_TRUST},
